@@ -559,7 +559,9 @@ class BaseProject(object, metaclass=ABCMeta):
 
         # 2. Sort ready task using TaskPriorityRule
         ready_and_working_task_list = sort_task_list(
-            ready_and_working_task_list, task_priority_rule
+            ready_and_working_task_list,
+            task_priority_rule,
+            absence_time_list=self.absence_time_list,
         )
 
         # 3. Allocate ready tasks to free workers and facilities
